@@ -44,6 +44,11 @@ def AddRes.cls : AddRes → String
   | .added => "ok" | .present => "ok" | .prevMissing => "prev-missing" | .badClock => "err:add-clock"
   | .badSig => "err:add-sig" | .payloadMismatch => "err:add-payload-hash" | .rootExists => "err:add-root"
 
+def payloadMismatch (payload : Option Payload) (tx : Tx) : Bool :=
+  match payload with
+  | some p => p.sha != tx.payloadHash
+  | none => false
+
 /-- the decision of `state.Add`: presence, verifiers in registration order (prevs+clock, signature),
     then inside the write transaction the payload hash and the single-root rule -/
 def addCheck (d : List Tx) (tx : Tx) (payload : Option Payload) : AddRes :=
@@ -51,7 +56,7 @@ def addCheck (d : List Tx) (tx : Tx) (payload : Option Payload) : AddRes :=
   else if !(tx.prevs.all (present d)) then .prevMissing
   else if tx.clock != expectedClock d tx.prevs then .badClock
   else if !tx.sigOK then .badSig
-  else if (match payload with | some p => p.sha != tx.payloadHash | none => false) then .payloadMismatch
+  else if payloadMismatch payload tx then .payloadMismatch
   else if tx.prevs.isEmpty && d.any (fun t => t.clock == 0) then .rootExists
   else .added
 
